@@ -52,3 +52,13 @@ Example C06_bytes_nonvacuous :
   utf8_sig_decode (UTF8_BOM ++ utf8_encode (esc "[Song]"%string ++ [233; 8364; 128512]%N))
   = Ok (esc "[Song]"%string ++ [233; 8364; 128512]%N).
 Proof. vm_compute. reflexivity. Qed.
+
+(** The section names themselves: the ten instrument values and four difficulty values of the current source are the documented
+    Moonscraper names (as sets; the order of the enum members is immaterial). *)
+Definition same_names (a b : list str) : bool :=
+  forallb (fun x => mem_str x b) a && forallb (fun x => mem_str x a) b.
+Example C06_header_names :
+  same_names (instr_values cfg) (map esc ["Single"; "DoubleGuitar"; "DoubleBass"; "DoubleRhythm"; "Drums"; "Keyboard";
+                                           "GHLGuitar"; "GHLBass"; "GHLRhythm"; "GHLCoop"]%string) = true
+  /\ same_names (diff_values cfg) (map esc ["Easy"; "Medium"; "Hard"; "Expert"]%string) = true.
+Proof. vm_compute. split; reflexivity. Qed.
